@@ -101,7 +101,7 @@ def check(case, ctx):
             label = "a.%s(axis=%r)" % (f, axis) + base
             fn = lambda: getattr(a, f)(axis=axis)
             e = getattr(np, f)(v, axis=k)
-        res, exc = ctx.call(label, fn, operands=(a,), meta='carry')
+        res, exc = ctx.call(label, fn, operands=(a,), meta='carry', ambient=True)
         common.expect(ctx, ID, "cum", label, res, exc, exp=model.MA(e, m.dims, m.labels), must_be_da=True)
         return (what, v.dtype.kind, nd, v.shape[k] if what != 'cumdefault' else v.shape[-1])
     if what == 'diff':
@@ -140,7 +140,7 @@ def check(case, ctx):
                 sl[k] = slice(n, None) if scheme == 'backward' else slice(0, size - n)
                 ee[tuple(sl)] = e
             exp = model.MA(ee, m.dims, labs)
-        res, exc = ctx.call(label, fn, operands=(a,), meta='carry')
+        res, exc = ctx.call(label, fn, operands=(a,), meta='carry', ambient=True)
         ok = common.expect(ctx, ID, "diff" + ("-keepaxis" if keep else ""), label, res, exc, exp=exp, must_be_da=True)
         if ok and not keep and res.values.dtype.kind != e.dtype.kind:
             ctx.v(ID, "diff-dtype", "%s: dtype %s, NumPy gives %s" % (label, res.values.dtype, e.dtype))
@@ -152,7 +152,7 @@ def check(case, ctx):
     if what == 'argaxis':
         ctx.outcomes['arg-axis'] += 1
         label = "a.%s(axis=%r, skipna=%r)" % (f, axis, skipna) + base + " values=%s" % model.brief(v, 12)
-        res, exc = ctx.call(label, lambda: getattr(a, f)(axis=axis, skipna=skipna), operands=(a,))
+        res, exc = ctx.call(label, lambda: getattr(a, f)(axis=axis, skipna=skipna), operands=(a,), ambient=True)
         klass = ('argaxis', f, skipna, v.dtype.kind, sp["kinds"][k], hasnan, nd, v.shape[k])
         np_exc = None
         with np.errstate(all='ignore'):
@@ -204,7 +204,7 @@ def check(case, ctx):
     # whole array
     ctx.outcomes['arg-whole'] += 1
     label = "a.%s(skipna=%r)" % (f, skipna) + base + " values=%s" % model.brief(v, 12)
-    res, exc = ctx.call(label, lambda: getattr(a, f)(skipna=skipna), operands=(a,))
+    res, exc = ctx.call(label, lambda: getattr(a, f)(skipna=skipna), operands=(a,), ambient=True)
     klass = ('argwhole', f, skipna, v.dtype.kind, hasnan, nd)
     with np.errstate(all='ignore'):
         try:
